@@ -28,8 +28,9 @@ UNIT = dict(
                  (r"^let \[player_one, player_two\] = &player_infosets;$", ("abstract", "")),
                  (r"^payoffs\.par_extend\(queue\.par_drain\(\.\.\)\.map\(\|\(node, p_chance, p_player\)\| \{ let payoff = recurse_multi\( node, &chance_infosets, \[player_one, player_two\], p_chance, p_player, &\(\), \); \(ByAddress\(node\), payoff\) \}\)\);$", ("abstract", "")),
                  (r"^recurse_multi\( start, &chance_infosets, \[player_one, player_two\], 1\.0, \[1\.0; 2\], &payoffs, \);$", ("abstract", "")),
-                 (r"^work\.clear\(\);$", ("abstract", "")),
-                 (r"^payoffs\.clear\(\);$", ("abstract", "")),
+                 # workspace maintenance is C06's business: any `queue/work/payoffs .clear()` form is irrelevant here
+                 (r"^(queue|work|payoffs)\.clear\(\);$", ("abstract", ""), "optional"),
+                 (r"^if [^{]*\{ (queue|work|payoffs)\.clear\(\); \}$", ("abstract", ""), "optional"),
                  (r"^chance_infosets\.iter_mut\(\)\.for_each\(ChanceRecurse::advance\);$", ("abstract", "")),
                  (r"^for \(reg, infos\) in regs\.iter_mut\(\)\.zip\(player_infosets\.iter_mut\(\)\) \{ \*reg = infos\.iter_mut\(\)\.map\(\|info\| info\.advance\(it, params\)\)\.sum\(\); \}$",
                   ("abstract", "__abs_iteration(&mut __st, it, regs);")),
